@@ -168,7 +168,13 @@ def check_aws(ctx):
             spec[i] = "fail"
         elif not a.startswith("ok"):
             spec[i] = "ok <a signature was expected>"
-    vlib.tri_compare(ctx, sub, cases, impl, model, spec)
+    # report disagreements with the spec (concrete failing inputs) before mere model differences
+    order = sorted(range(len(cases)), key=lambda i: (i >= len(impl) or i >= len(spec) or impl[i] == spec[i], i))
+    if len(impl) == len(cases) and len(model) == len(cases):
+        vlib.tri_compare(ctx, sub, [cases[i] for i in order], [impl[i] for i in order],
+                         [model[i] for i in order], [spec[i] for i in order])
+    else:
+        vlib.tri_compare(ctx, sub, cases, impl, model, spec)
     ctx.record(sub, cases, set(zip(cases, impl)),
                "four signing variants; ids/regions/buckets/services/ops over the unreserved alphabet (0..200 chars), S3 paths always beginning with '/' (the request line documented in aws_sign.h; 0..3 unreserved segments or a long unreserved+'/' tail; never empty), secrets printable ASCII, bodies absent/empty/random (block-boundary lengths), timestamps at epoch/leap-day/23:59:59/2038/year-9999 boundaries with time() returning t+k on its k-th call; about 13% of the instants outside 1970..9999: year >= 10000 (failure expected, theorem), negative down to year 1000 (compared with the spec), time()'s error value -1 and years before 1000 (implementation vs model only: unpadded %Y, failure below year -999); non-trivial = distinct (case, result)",
                samples=[cases[0][:200], cases[1][:200]])
